@@ -2,6 +2,7 @@
    Imports model files only (no Mathlib), run with `lake env lean --run Driver.lean`. -/
 import AioftpModel.Driver.Codec
 import AioftpModel.Model.Paths
+import AioftpModel.Driver.Session
 
 open Codec Model Py
 
@@ -34,21 +35,32 @@ def handlePaths : List String → Option String
     pure (encStr p.str)
   | _ => none
 
-def handle (line : String) : String :=
-  let toks := (line.splitOn " ").filter (· ≠ "")
-  let r := match toks with
-    | "paths" :: rest => handlePaths rest
-    | _ => none
-  r.getD "bad-op"
+/-- state of the stateful components -/
+structure DState where
+  sess : DriverSession.DState := {}
 
-partial def loop (h : IO.FS.Stream) (out : IO.FS.Stream) : IO Unit := do
+/-- pure components: tokens after the component word → answer -/
+def handlePure : List String → Option String
+  | "paths" :: rest => handlePaths rest
+  | _ => none
+
+def handle (st : DState) (line : String) : DState × String :=
+  let toks := (line.splitOn " ").filter (· ≠ "")
+  match toks with
+  | "sess" :: rest =>
+    let (s', r) := DriverSession.handle st.sess rest
+    ({ st with sess := s' }, r.getD "bad-op")
+  | _ => (st, (handlePure toks).getD "bad-op")
+
+partial def loop (h : IO.FS.Stream) (out : IO.FS.Stream) (st : DState) : IO Unit := do
   let line ← h.getLine
   if line.isEmpty then return ()
   let line := String.ofList (line.toList.filter (fun c => c != (Char.ofNat 10) && c != (Char.ofNat 13)))
-  out.putStrLn (handle line)
-  loop h out
+  let (st', r) := handle st line
+  out.putStrLn r
+  loop h out st'
 
 def main : IO Unit := do
   let out ← IO.getStdout
-  loop (← IO.getStdin) out
+  loop (← IO.getStdin) out {}
   out.flush
